@@ -55,10 +55,12 @@ impl ZmtpManualParser {
       )));
     }
     let size = raw_size as usize;
-    let total = header_len + size;
-    if src.len() < total {
+    // Use subtraction (not addition) to avoid overflow when size is close to usize::MAX.
+    // Safe because src.len() >= header_len is guaranteed by the early-return above.
+    if src.len() - header_len < size {
       return Ok(None);
     }
+    let total = header_len + size;
     // ONE copy: kernel ring buffer → final Msg payload allocation
     let mut msg = Msg::from_vec(src[header_len..total].to_vec());
     let mut rz_flags = MsgFlags::empty();
@@ -99,7 +101,13 @@ impl ZmtpManualParser {
         raw_size, self.max_msg_size
       )));
     }
-    Ok(Some(header_len + raw_size as usize))
+    match header_len.checked_add(raw_size as usize) {
+      Some(total) => Ok(Some(total)),
+      None => Err(ZmqError::ProtocolViolation(format!(
+        "frame size {} overflows the addressable range",
+        raw_size
+      ))),
+    }
   }
 
   /// Parse one ZMTP frame from a `Bytes` chunk without allocating.
@@ -128,10 +136,12 @@ impl ZmtpManualParser {
       )));
     }
     let size = raw_size as usize;
-    let total = header_len + size;
-    if src.len() < total {
+    // Use subtraction (not addition) to avoid overflow when size is close to usize::MAX.
+    // Safe because src.len() >= header_len is guaranteed by the early-return above.
+    if src.len() - header_len < size {
       return Ok(None);
     }
+    let total = header_len + size;
     let payload_bytes = src.slice(header_len..total);
     let mut msg = Msg::from_bytes(payload_bytes);
     let mut rz_flags = MsgFlags::empty();
